@@ -150,6 +150,11 @@ def run(prop, tier='quick', seed=0, repo='/repo', update_lock=False, verbose=Fal
             fn_infos.append(eng.verify(q))
         except Unsupported as ex:
             undecided.append({'obligation': base_name(q.partition(':')[2]) + '.supported', 'reason': str(ex)})
+        except (AttributeError, KeyError, NameError) as ex:
+            # the sidecar refers to a local variable / field the function no longer has (e.g. after a renaming): the function cannot be
+            # checked against its contract as it stands -- undecided, not an error of the code and not a violation
+            undecided.append({'obligation': base_name(q.partition(':')[2]) + '.supported',
+                              'reason': 'the sidecar contract refers to a name the function no longer provides (%s: %s)' % (type(ex).__name__, ex)})
         except Exception:
             crashed.append(traceback.format_exc())
     lemmas = prop.lemmas() if callable(prop.lemmas) else prop.lemmas
